@@ -43,6 +43,7 @@ extern "C" {
    extern int    g_added;     /* NameSet::add calls                                    */
    extern int    g_add_same;  /* NameSet::add was handed the pointer number() got      */
    extern int    g_cadded;    /* LPColSetBase::add calls                               */
+   extern int    g_scan_end;  /* offset in the line at which the strchr model stopped  */
 }
 
 /* is a[i] inside the object a points into?  (the recording stubs must not add out-of-bounds reads of their own) */
@@ -68,11 +69,15 @@ char* strchr(const char* str, int chr)
    while(*p != (char)chr)
    {
       if(*p == '\0')
+      {
+         g_scan_end = (int)(p - gp_line);      /* ghost: where the scan hit the terminator */
          return 0;
+      }
 
       p++;
    }
 
+   g_scan_end = (int)(p - gp_line);
    return (char*)p;
 }
 #elif defined(STRCHR_LIT)
@@ -196,6 +201,13 @@ extern "C" int w_hasKeyword(char* line, int n, int off, int* off_out, int* end_o
 /* ---- LPFreadInfinity: its callee LPFhasKeyword is replaced by its contract (contract.c) ---------------- */
 #ifdef INST_readInfinity
 extern "C" bool LPFhasKeyword(char*& pos, const char* keyword);
+/* CBMC's C++ front end types the pre-increment `++pos` as an rvalue, which cannot bind to `char*& pos`.  In C++ it is the
+ * lvalue pos itself, i.e. the wrapper local that gpp_pos points to: this overload forwards exactly that object. */
+static inline bool LPFhasKeyword(const char* incremented, const char* keyword)
+{
+   __CPROVER_assert(incremented == *gpp_pos, "++pos denotes the object pos refers to");
+   return LPFhasKeyword(*gpp_pos, keyword);
+}
 extern "C" R LPFreadInfinity(char*& pos)
 {
 #include "LPFreadInfinity.inc"
